@@ -166,7 +166,7 @@ func runC13(p *load.Program, r *core.Report) {
 	c13Sentinel(p, r, sendFn)
 	c13Worker(p, r)
 	c13Modulus(p, r, sendFn)
-	c13Envelope(p, r, sendFn)
+	c13Envelope(p, r, sendFn, "C13.F5 envelope-keeps-selector")
 	c13Option(p, r)
 }
 
@@ -230,10 +230,9 @@ func c13Sentinel(p *load.Program, r *core.Report, sendFn *ssa.Function) {
 
 // c13Envelope: F5 — a compressed frame keeps the order byte of the frame it wraps: the receive-queue
 // selector written at index 6 of the envelope is a load of index 6 of the original buffer.
-func c13Envelope(p *load.Program, r *core.Report, sendFn *ssa.Function) {
-	rule := "C13.F5 envelope-keeps-selector"
+func c13Envelope(p *load.Program, r *core.Report, sendFn *ssa.Function, rule string) {
 	r.Floor(rule, 1)
-	key := "C13.F5|" + fname(sendFn)
+	key := strings.SplitN(rule, " ", 2)[0] + "|" + fname(sendFn)
 	inst := "the compression envelope carries the receive-queue selector (byte 6) of the frame it wraps"
 	n, good := 0, 0
 	var badPos string
